@@ -1,10 +1,22 @@
 package main
 
+// gosymex: bounded symbolic execution of the current /repo tree (go/ssa) against harnesses from /verif/harness.
+//
+//   gosymex -prop C04 -tier quick            run a property's harnesses, write evidence/C04.json
+//   gosymex -prop C04 -only H_x              run one harness (development)
+//   gosymex -replay replays/C04/H_x-0        re-run one recorded counterexample natively
+
 import (
+	"encoding/json"
+	"flag"
 	"fmt"
 	"os"
+	"path/filepath"
+	"runtime"
 	"sort"
+	"strconv"
 	"strings"
+	"sync"
 	"time"
 
 	"golang.org/x/tools/go/packages"
@@ -12,116 +24,409 @@ import (
 	"golang.org/x/tools/go/ssa/ssautil"
 )
 
-var intrinsics = map[string]func(e *Engine, args []Value) Value{}
-
-const P = "github.com/amzn/ion-go/ion."
-
-func init() {
-	intrinsics[P+"vnondetU64"] = func(e *Engine, a []Value) Value { return e.x.newNondet(64) }
-	intrinsics[P+"vnondetU8"] = func(e *Engine, a []Value) Value { return e.x.newNondet(8) }
-	intrinsics[P+"vnondetBytes"] = func(e *Engine, a []Value) Value {
-		n := e.concInt(e.term(a[0]), true, "nondet bytes len", 64)
-		arr := e.newArraySlot(byteType, n)
-		for i := 0; i < n; i++ {
-			arr.kids[i].val = e.x.newNondet(8)
-		}
-		return &SliceV{arr: arr, len: n, cap: n}
-	}
-	intrinsics[P+"vassume"] = func(e *Engine, a []Value) Value { e.x.assume(e.term(a[0])); return nil }
-	intrinsics[P+"vassert"] = func(e *Engine, a []Value) Value { e.x.vassert(e.term(a[0]), "vassert#"+fmt.Sprint(e.x.asserts)); return nil }
-	intrinsics[P+"vcover"] = func(e *Engine, a []Value) Value {
-		s := a[0].(*StrV)
-		var sb strings.Builder
-		for _, c := range s.b {
-			sb.WriteByte(byte(c.ConstU()))
-		}
-		e.x.covered[sb.String()]++
-		return nil
-	}
-	opaqueStr := func(e *Engine, a []Value) Value { return e.strConst("<fmt>") }
-	intrinsics["fmt.Sprintf"] = opaqueStr
-	intrinsics["fmt.Errorf"] = func(e *Engine, a []Value) Value {
-		return &Iface{t: errT, v: &Ptr{&Slot{}}}
-	}
+type HarnessSpec struct {
+	Name        string           `json:"name"`
+	Tiers       []string         `json:"tiers"`
+	Cfg         map[string]int64 `json:"cfg"`
+	CfgThorough map[string]int64 `json:"cfg_thorough"`
+	BudgetS     int              `json:"budget_s"`
+	LoopBound   int              `json:"loop_bound"`
+	AllocLimit  int              `json:"alloc_limit"`
+	MaxSteps    int              `json:"max_steps"`
+	Covers      []string         `json:"covers"` // labels that must be reached (vacuity guard)
+	Note        string           `json:"note"`
+	AllowUnsup  []string         `json:"allow_unsupported"`
+	TimeoutMs   int              `json:"solver_timeout_ms"`
 }
 
-var byteType = ssaByte()
-var errT = ssaErrT()
+type PropSpec struct {
+	Pkg         string        `json:"pkg"` // ion | cmd
+	Level       string        `json:"level"`
+	Technique   string        `json:"technique"`
+	Outside     []string      `json:"outside"`
+	Assumptions []string      `json:"assumptions"`
+	Harnesses   []HarnessSpec `json:"harnesses"`
+}
 
-func main() {
-	t0 := time.Now()
-	harnessSrc, err := os.ReadFile(os.Args[1])
-	if err != nil {
-		panic(err)
+type Registry struct {
+	Properties map[string]*PropSpec `json:"properties"`
+}
+
+type Finding struct {
+	ID       string `json:"id"`
+	Property string `json:"property"`
+	Status   string `json:"status"` // open | fixed
+	Match    struct {
+		KF      string `json:"kf"`
+		Kind    string `json:"kind"`
+		Func    string `json:"func"`
+		MsgHas  string `json:"msg_has"`
+		Harness string `json:"harness"`
+	} `json:"match"`
+	What    string `json:"what"`
+	Witness string `json:"witness"`
+	Fixed   string `json:"fixed"`
+}
+
+type Findings struct {
+	Findings []Finding `json:"findings"`
+}
+
+var (
+	verifDir = "/verif"
+	repoDir  = "/repo"
+)
+
+func envs() []string {
+	return append(os.Environ(), "GOFLAGS=-mod=mod", "GOPROXY=off", "GOSUMDB=off", "GOTOOLCHAIN=local")
+}
+
+type loaded struct {
+	prog    *ssa.Program
+	pkg     *ssa.Package
+	overlay map[string]string // virtual path -> real path (for native replay)
+	pkgRel  string
+	tmpDir  string
+}
+
+func pkgDirs(kind string) (harnessDir, repoRel, pkgName string) {
+	if kind == "cmd" {
+		return filepath.Join(verifDir, "harness/cmd"), "cmd/ion-go", "main"
+	}
+	return filepath.Join(verifDir, "harness/ion"), "ion", "ion"
+}
+
+// load type-checks and builds SSA for the repo package plus the overlaid harness files, from the current working tree.
+func load(kind string) (*loaded, error) {
+	hdir, rel, pkgName := pkgDirs(kind)
+	ov := map[string][]byte{}
+	real := map[string]string{}
+	files, _ := filepath.Glob(filepath.Join(hdir, "*.go"))
+	for _, f := range files {
+		src, err := os.ReadFile(f)
+		if err != nil {
+			return nil, err
+		}
+		v := filepath.Join(repoDir, rel, "zz_verif_"+filepath.Base(f))
+		if strings.HasSuffix(f, "_test.go") {
+			real[v] = f
+			continue
+		}
+		ov[v] = src
+		real[v] = f
+	}
+	tmp := filepath.Join(verifDir, "bin", "gen-"+kind)
+	os.MkdirAll(tmp, 0o755)
+	for _, t := range []string{"rt.go", "rt_test.go"} {
+		src, err := os.ReadFile(filepath.Join(verifDir, "harness/rt", t+".tmpl"))
+		if err != nil {
+			return nil, err
+		}
+		s := strings.Replace(string(src), "PKGNAME", pkgName, 1)
+		out := filepath.Join(tmp, t)
+		os.WriteFile(out, []byte(s), 0o644)
+		v := filepath.Join(repoDir, rel, "zz_verif_"+t)
+		real[v] = out
+		if !strings.HasSuffix(t, "_test.go") {
+			ov[v] = []byte(s)
+		}
 	}
 	cfg := &packages.Config{
 		Mode:    packages.LoadAllSyntax,
-		Dir:     "/repo",
-		Overlay: map[string][]byte{"/repo/ion/zz_verif_harness.go": harnessSrc},
-		Env:     append(os.Environ(), "GOFLAGS=-mod=mod", "GOPROXY=off"),
+		Dir:     repoDir,
+		Overlay: ov,
+		Env:     envs(),
 	}
-	if m := os.Getenv("MUTATE"); m != "" { // file|old|new
-		parts := strings.SplitN(m, "|", 3)
-		src, err := os.ReadFile("/repo/ion/" + parts[0])
-		if err != nil {
-			panic(err)
-		}
-		if !strings.Contains(string(src), parts[1]) {
-			panic("mutation target not found")
-		}
-		cfg.Overlay["/repo/ion/"+parts[0]] = []byte(strings.Replace(string(src), parts[1], parts[2], 1))
-	}
-	pkgs, err := packages.Load(cfg, "./ion")
+	pkgs, err := packages.Load(cfg, "./"+rel)
 	if err != nil {
-		panic(err)
+		return nil, err
 	}
-	if packages.PrintErrors(pkgs) > 0 {
-		os.Exit(2)
+	nerr := 0
+	packages.Visit(pkgs, nil, func(p *packages.Package) {
+		for _, e := range p.Errors {
+			if nerr < 20 {
+				fmt.Fprintln(os.Stderr, "load error:", e)
+			}
+			nerr++
+		}
+	})
+	if nerr > 0 {
+		return nil, fmt.Errorf("%d load errors", nerr)
 	}
 	prog, spkgs := ssautil.AllPackages(pkgs, ssa.InstantiateGenerics)
 	prog.Build()
-	p := spkgs[0]
-	fmt.Printf("loaded+built in %.1fs\n", time.Since(t0).Seconds())
+	l := &loaded{prog: prog, pkg: spkgs[0], overlay: real, pkgRel: rel, tmpDir: tmp}
+	// registry of harness functions for the native driver
+	var names []string
+	for n, m := range l.pkg.Members {
+		if _, ok := m.(*ssa.Function); ok && strings.HasPrefix(n, "H_") {
+			names = append(names, n)
+		}
+	}
+	sort.Strings(names)
+	var sb strings.Builder
+	sb.WriteString("package " + pkgName + "\n\nvar vharnesses = map[string]func(){\n")
+	for _, n := range names {
+		fmt.Fprintf(&sb, "\t%q: %s,\n", n, n)
+	}
+	sb.WriteString("}\n")
+	regf := filepath.Join(tmp, "reg_test.go")
+	os.WriteFile(regf, []byte(sb.String()), 0o644)
+	real[filepath.Join(repoDir, rel, "zz_verif_reg_test.go")] = regf
+	return l, nil
+}
 
-	for _, name := range os.Args[2:] {
-		fn := p.Func(name)
-		if fn == nil {
-			fmt.Println("no such harness", name)
+type HarnessResult struct {
+	Spec        HarnessSpec
+	Sh          *Shared
+	Wall        float64
+	SolverTime  float64
+	Queries     int
+	Sat, Unsat  int
+	Unk         int
+	SolverErr   int
+	Funcs       map[string]int
+	Instrs      int
+	Cfg         map[string]int64
+	Validated   int
+	Mismatch    []string
+	MissingCov  []string
+	BadUnsup    []string
+	Incomplete  bool
+	Reproduced  []Violation
+	NotRepro    []Violation
+	KnownPrinted map[string]bool
+}
+
+func runHarness(l *loaded, spec HarnessSpec, tier string, workers int, seed int64, solverBin string) *HarnessResult {
+	fn := l.pkg.Func(spec.Name)
+	res := &HarnessResult{Spec: spec, Funcs: map[string]int{}}
+	if fn == nil {
+		fmt.Printf("ERROR no such harness %s\n", spec.Name)
+		res.MissingCov = []string{"<harness missing>"}
+		return res
+	}
+	cfg := map[string]int64{}
+	for k, v := range spec.Cfg {
+		cfg[k] = v
+	}
+	if tier == "thorough" {
+		for k, v := range spec.CfgThorough {
+			cfg[k] = v
+		}
+	}
+	res.Cfg = cfg
+	budget := spec.BudgetS
+	if budget == 0 {
+		budget = 240
+	}
+	if tier == "thorough" {
+		budget *= 8
+	}
+	if b := os.Getenv("VERIF_BUDGET_S"); b != "" {
+		budget, _ = strconv.Atoi(b)
+	}
+	t0 := time.Now()
+	sh := NewShared(workers, seed, t0.Add(time.Duration(budget)*time.Second))
+	if tier == "thorough" {
+		sh.maxSamples = 32
+	}
+	res.Sh = sh
+	var wg sync.WaitGroup
+	var mu sync.Mutex
+	tmo := spec.TimeoutMs
+	if tmo == 0 {
+		tmo = 10000
+		if tier == "thorough" {
+			tmo = 60000
+		}
+	}
+	for w := 0; w < workers; w++ {
+		wg.Add(1)
+		go func(w int) {
+			defer wg.Done()
+			bank := NewBank()
+			sol, err := NewSolver(solverBin, tmo)
+			if err != nil {
+				panic(err)
+			}
+			if lg := os.Getenv("SMTLOG"); lg != "" && w == 0 {
+				lf, _ := os.Create(lg)
+				sol.log = lf
+			}
+			e := &Engine{prog: l.prog, pkg: l.pkg, b: bank, globals: map[*ssa.Global]*Slot{}, finfo: map[*ssa.Function]*fnInfo{},
+				funcsSeen: map[*ssa.Function]int{}, consts: map[*ssa.Const]Value{}, loopBound: 100000, allocLimit: 64, maxSteps: 20000000, cfg: cfg}
+			if spec.LoopBound > 0 {
+				e.loopBound = spec.LoopBound
+			}
+			if spec.AllocLimit > 0 {
+				e.allocLimit = spec.AllocLimit
+			}
+			if spec.MaxSteps > 0 {
+				e.maxSteps = spec.MaxSteps
+			}
+			x := &Explorer{e: e, s: sol, b: bank, sh: sh, name: spec.Name}
+			e.x = x
+			e.initGlobals()
+			for {
+				item, ok := sh.get()
+				if !ok {
+					break
+				}
+				x.runItem(fn, item)
+			}
+			mu.Lock()
+			res.SolverTime += sol.Time.Seconds()
+			res.Queries += sol.Queries
+			res.Sat += sol.Sat
+			res.Unsat += sol.Unsat
+			res.Unk += sol.Unk
+			res.SolverErr += sol.Errors
+			for f, n := range e.funcsSeen {
+				name := e.info(f).short
+				if _, seen := res.Funcs[name]; !seen {
+					k := 0
+					for _, b := range f.Blocks {
+						k += len(b.Instrs)
+					}
+					res.Instrs += k
+				}
+				res.Funcs[name] += n
+			}
+			mu.Unlock()
+			sol.Close()
+		}(w)
+	}
+	wg.Wait()
+	res.Wall = time.Since(t0).Seconds()
+	res.Incomplete = sh.timedOut
+	for _, c := range spec.Covers {
+		if sh.covered[c] == 0 {
+			res.MissingCov = append(res.MissingCov, c)
+		}
+	}
+	for msg := range sh.unsupported {
+		ok := false
+		for _, a := range spec.AllowUnsup {
+			if strings.Contains(msg, a) {
+				ok = true
+			}
+		}
+		if !ok {
+			res.BadUnsup = append(res.BadUnsup, msg)
+		}
+	}
+	sort.Strings(res.BadUnsup)
+	return res
+}
+
+func main() {
+	prop := flag.String("prop", "", "property id")
+	tier := flag.String("tier", "quick", "quick|thorough")
+	only := flag.String("only", "", "run only this harness (comma separated)")
+	workers := flag.Int("workers", 0, "worker count (default: all cores)")
+	replay := flag.String("replay", "", "replay directory")
+	solver := flag.String("solver", "z3", "solver binary")
+	noReplay := flag.Bool("noreplay", false, "skip native replay/validation (development only)")
+	noEvidence := flag.Bool("noevidence", false, "do not write the evidence file (development only)")
+	flag.Parse()
+	if v := os.Getenv("VERIF_DIR"); v != "" {
+		verifDir = v
+	}
+	if v := os.Getenv("VERIF_REPO"); v != "" {
+		repoDir = v
+	}
+	if v := os.Getenv("VERIF_TIER"); v != "" && *tier == "quick" {
+		if v == "thorough" || v == "quick" {
+			*tier = v
+		}
+	}
+	if *workers == 0 {
+		*workers = runtime.NumCPU()
+	}
+	seed := int64(1)
+	if s := os.Getenv("VERIF_SEED"); s != "" {
+		if v, err := strconv.ParseInt(s, 10, 64); err == nil {
+			seed = v
+		}
+	}
+	if *replay != "" {
+		os.Exit(replayDir(*replay))
+	}
+	t0 := time.Now()
+	var reg Registry
+	raw, err := os.ReadFile(filepath.Join(verifDir, "harness/registry.json"))
+	if err != nil {
+		fmt.Println("ERROR registry:", err)
+		os.Exit(2)
+	}
+	if err := json.Unmarshal(raw, &reg); err != nil {
+		fmt.Println("ERROR registry:", err)
+		os.Exit(2)
+	}
+	ps := reg.Properties[*prop]
+	if ps == nil {
+		fmt.Println("ERROR unknown property", *prop)
+		os.Exit(2)
+	}
+	var kf Findings
+	if raw, err := os.ReadFile(filepath.Join(verifDir, "known_findings.json")); err == nil {
+		if err := json.Unmarshal(raw, &kf); err != nil {
+			fmt.Println("ERROR known_findings.json:", err)
+			os.Exit(2)
+		}
+	}
+	l, err := load(ps.Pkg)
+	if err != nil {
+		fmt.Println("ERROR harness-build:", err)
+		writeEvidenceError(*prop, *tier, seed, ps, "harness-build: "+err.Error(), time.Since(t0).Seconds(), *noEvidence)
+		os.Exit(2)
+	}
+	fmt.Printf("loaded+built SSA from %s in %.1fs\n", repoDir, time.Since(t0).Seconds())
+	var results []*HarnessResult
+	onlySet := map[string]bool{}
+	for _, n := range strings.Split(*only, ",") {
+		if n != "" {
+			onlySet[n] = true
+		}
+	}
+	for _, hs := range ps.Harnesses {
+		if len(onlySet) > 0 {
+			if !onlySet[hs.Name] {
+				continue
+			}
+		} else {
+			in := false
+			for _, t := range hs.Tiers {
+				if t == *tier {
+					in = true
+				}
+			}
+			if !in {
+				continue
+			}
+		}
+		r := runHarness(l, hs, *tier, *workers, seed, *solver)
+		results = append(results, r)
+		sh := r.Sh
+		if sh == nil {
 			continue
 		}
-		bank := NewBank()
-		sol, err := NewSolver(bank, 20000)
-		if err != nil {
-			panic(err)
-		}
-		if os.Getenv("SMTLOG") != "" {
-			lf, _ := os.Create(os.Getenv("SMTLOG"))
-			sol.log = lf
-		}
-		e := &Engine{prog: prog, pkg: p, b: bank, globals: map[*ssa.Global]*Slot{}, funcsEntered: map[string]int{}, loopBound: 70, allocLimit: 64}
-		x := &Explorer{e: e, s: sol, b: bank, covered: map[string]int{}, seenViol: map[string]bool{}}
-		e.x = x
-		// run package init for the tables we need (only selected globals)
-		e.initGlobals()
-		t1 := time.Now()
-		x.Run(fn)
-		fmt.Printf("== %s: paths=%d pruned=%d unknown=%d queries=%d solver=%.2fs wall=%.2fs steps=%d terms=%d violations=%d\n",
-			name, x.Paths, x.Pruned, x.Unknown, sol.Queries, sol.Time.Seconds(), time.Since(t1).Seconds(), e.steps, len(bank.terms), len(x.Violations))
 		var cv []string
-		for k, v := range x.covered {
+		for k, v := range sh.covered {
 			cv = append(cv, fmt.Sprintf("%s:%d", k, v))
 		}
 		sort.Strings(cv)
-		fmt.Println("   covered:", cv)
-		for _, v := range x.Violations {
-			fmt.Println("   VIOLATION", describe(v))
+		fmt.Printf("== %s: paths=%d pruned=%d decisions=%d unknown=%d inconclusive=%d queries=%d (sat %d unsat %d) solver=%.1fs wall=%.1fs steps=%d violations=%d incomplete=%v\n",
+			hs.Name, sh.Paths, sh.Pruned, sh.Decisions, sh.Unknown, sh.Inconclusive, r.Queries, r.Sat, r.Unsat, r.SolverTime, r.Wall, sh.Steps, len(sh.violations), r.Incomplete)
+		fmt.Println("   covered:", strings.Join(cv, " "))
+		for m, n := range sh.unsupported {
+			fmt.Printf("   unsupported x%d: %s\n", n, m)
 		}
-		var fe []string
-		for k := range e.funcsEntered {
-			fe = append(fe, strings.TrimPrefix(k, "github.com/amzn/ion-go/ion."))
+		for _, v := range sh.violations {
+			fmt.Println("   candidate", describe(v))
 		}
-		sort.Strings(fe)
-		fmt.Println("   functions:", strings.Join(fe, " "))
-		sol.Close()
 	}
+	code := finish(*prop, *tier, seed, ps, l, results, &kf, time.Since(t0).Seconds(), *noReplay, *noEvidence)
+	os.Exit(code)
 }
